@@ -247,7 +247,7 @@ fn iso_checks<S: Suite>(ctx: &Ctx, pts: &[Pt<S::K>], lams: &[S::K], bound: usize
 }
 
 /// rational kernel points of the 11-isogeny on E1'(Fq): points of order 11 whose x is a root of the x-denominator
-fn g1_kernel_points(ctx: &Ctx) -> Vec<Pt<Q1>> {
+pub fn g1_kernel_points(ctx: &Ctx) -> Vec<Pt<Q1>> {
     let c = e1_iso();
     let tables = RG1::lib_iso();
     let group_order = &params().h1 * r(); // isogenous curves have the same number of points
